@@ -13,9 +13,14 @@ COMMON_NOTE = ("Trusted base: Python's ast parser; the seed tables of the abstra
                "pixels, which rotation maps which frame; DESIGN.md Appendix B); transfer tables for numpy/scipy/dask/polars callees. "
                "Decides only the structural clauses listed in DESIGN.md section 5 for this property; numerical clauses are listed as "
                "not decided in the evidence file. No statement about numpy/scipy/dask/polars internals. An obligation that is not discharged on the "
-               "program as written is re-evaluated on behaviour-preserving views of it (private helpers inlined, comprehensions unrolled; sa/views.py) and "
-               "is refuted only if it fails on every view. Structural rules report a violation when their construct is absent: deep restructurings of an "
-               "anchored function can therefore be reported although behaviour is unchanged (measured in DESIGN.md section 10.8). Genuine defects that were "
+               "program as written is re-evaluated on behaviour-preserving views of it (private helpers, closures and lambda arguments inlined, comprehensions "
+               "and append loops converted into each other, early exits and conditional expressions in a structured normal form; sa/views.py, each view "
+               "validated with the pinned suite) and is refuted only if it fails on every view; calls are compared as parameter-to-argument bindings. Where a "
+               "rule is about values touched only through comparisons or about which value reaches a sink, it is decided by representative / symbolic "
+               "evaluation of the source by the checker's own interpreter (signs, constants, first-order terms; sa/domains) - the analysed program is never "
+               "run. Structural rules report a violation when their construct is absent: deep restructurings of an "
+               "anchored function can therefore be reported although behaviour is unchanged (measured on three rounds of behaviour-preserving refactors in "
+               "DESIGN.md section 10.8). Genuine defects that were "
                "recorded rather than repaired are listed in /verif/known_findings.jsonl and printed as KNOWN-FINDING lines (C08: D30, C18: D32).")
 
 CLAIMED = {
